@@ -482,7 +482,8 @@ def _run_query(build, q, r):
         desc = pr.get("description", "")
         st = pr.get("status")
         is_unwind = ".unwind." in name
-        is_capped = is_unwind and name.replace(".unwind.", ".") in capped_ids
+        _strip = lambda x: re.sub(r"^__CPROVER_file_local_\w+?_c_", "", x)
+        is_capped = is_unwind and _strip(name.replace(".unwind.", ".")) in [_strip(c) for c in capped_ids]
         is_wit = any(e.search(desc) for e in exp)
         if st == "SUCCESS":
             if is_capped:
